@@ -270,34 +270,107 @@ def _reattach(ctx, P):
             ctx.ok("R19.2", inst, "grid coordinates that fit the result" + ("" if keep else ", non-dimension coordinates dropped"))
 
 
+def coord_tracking_models():
+    """Method / attribute models under which a modelled DataArray carries its coordinates (attrs['coords']: name -> dims,
+    an index coordinate being one named like a dimension) through xarray's coordinate API."""
+    from ..absint import BoundMethod
+
+    def names_of(arg):
+        if isinstance(arg, dict):
+            return list(arg)
+        if isinstance(arg, (list, tuple, set, frozenset)):
+            return list(arg)
+        if isinstance(arg, (Sym, str)):
+            return [arg]
+        raise Unmodelled(f"coordinate names {arg!r}")
+
+    def coords_of(o):
+        return dict(o.attrs.get("coords", {}))
+
+    def reset_coords(ev, recv, args, kw, node):
+        if kw.get("drop") is not True and not (len(args) > 1 and args[1] is True):
+            raise Unmodelled("reset_coords without drop=True turns the array into a dataset", node)
+        cur = coords_of(recv)
+        names = names_of(args[0]) if args and args[0] is not None else [k for k in cur if k not in recv.attrs.get("dims", ())]
+        return recv.with_eff(("reset_coords", tuple(args), tuple(sorted(kw.items()))), coords={k: v for k, v in cur.items() if k not in names})
+
+    def reset_index(ev, recv, args, kw, node):
+        names = names_of(args[0] if args else kw.get("dims_or_levels"))
+        cur = coords_of(recv)
+        if kw.get("drop") is True:
+            cur = {k: v for k, v in cur.items() if k not in names}
+        return recv.with_eff(("reset_index", tuple(args), tuple(sorted(kw.items()))), coords=cur)
+
+    def drop_vars(ev, recv, args, kw, node):
+        names = names_of(args[0] if args else kw.get("names"))
+        cur = {k: v for k, v in coords_of(recv).items() if k not in names}
+        return recv.with_eff(("drop_vars", tuple(names)), coords=cur)
+
+    def copy(ev, recv, args, kw, node):
+        return recv.with_eff(("copy",))
+
+    mm = {("DataArray", "reset_coords"): reset_coords, ("DataArray", "reset_index"): reset_index, ("DataArray", "drop_vars"): drop_vars,
+          ("DataArray", "copy"): copy}
+    am = {("DataArray", "coords"): lambda ev, o, n: coords_of(o), ("DataArray", "indexes"): lambda ev, o, n: {k: v for k, v in coords_of(o).items() if k in o.attrs.get("dims", ())},
+          ("DataArray", "xindexes"): lambda ev, o, n: {k: v for k, v in coords_of(o).items() if k in o.attrs.get("dims", ())}}
+    return mm, am
+
+
 def _strip(ctx, P):
+    """R19.3: whatever spelling pad() uses to strip, the array handed to the basic / face padding carries no coordinate."""
     padfi = P.func("padding:pad")
     from ..facepad import FACE, table_for
+    from ..harness import da_attr_models, da_method_models
 
-    for name, grid in (("basic padding", None), ("face-connection padding", lambda: make_grid(("AX", "AY"), face_connections=table_for(True, False, False), facedim=FACE, boundary="fill", fill_value=0.0))):
-        inst = f"pad(): coordinates stripped before {name}"
-        try:
-            kw = {}
-            if grid is not None:
-                kw["grid"] = grid
-                kw["data"] = lambda: make_da("da", [Sym("t"), FACE, dimsym("AY", "center"), dimsym("AX", "center")])
-            outs, calls = run_pad(P, None, None, {AX: (1, 1)}, **kw)
-        except Unmodelled as e:
-            ctx.unknown("R19.3", inst, str(e))
-            continue
-        bad = None
-        if not calls:
-            bad = "nothing is padded"
-        for c in calls:
-            d = c.get("da")
-            ops = [e[0] for e in d.eff] if isinstance(d, Obj) else []
-            rc = [e for e in (d.eff if isinstance(d, Obj) else []) if e[0] == "reset_coords"]
-            ri = [e for e in (d.eff if isinstance(d, Obj) else []) if e[0] == "reset_index"]
-            if not rc or dict(rc[0][2]).get("drop") is not True:
-                bad = f"the data reaches the padding without reset_coords(drop=True) (operations {ops})"
-            elif not ri or dict(ri[0][2]).get("drop") is not True:
-                bad = f"index coordinates are not dropped before padding (operations {ops})"
-        if bad:
-            ctx.report("R19.3", padfi, inst, bad)
-        else:
-            ctx.ok("R19.3", inst, "reset_coords(drop=True) and reset_index(..., drop=True)")
+    t, yc, xc = Sym("t"), dimsym("AY", "center"), dimsym("AX", "center")
+    for name, face in (("basic padding", False), ("face-connection padding", True)):
+        for carried in ("index and non-index coordinates", "non-index coordinates only", "index coordinates only"):
+            inst = f"pad(): {carried} stripped before {name}"
+            dims = [t] + ([FACE] if face else []) + [yc, xc]
+            coords = {}
+            if "non-index" in carried:
+                coords.update({Sym("lon"): (yc, xc), Sym("scalar"): (), Sym("depth"): (t,)})
+            if carried != "non-index coordinates only":
+                coords.update({d: (d,) for d in dims})
+            calls = []
+
+            def m_pad_basic(ev, args, kw, node):
+                calls.append(args[0] if args else kw.get("da"))
+                d = calls[-1]
+                return d.with_eff(("PAD_BASIC",)) if isinstance(d, Obj) else TOP
+
+            def m_pad_fc(ev, args, kw, node):
+                d = args[0] if args else kw.get("da")
+                if isinstance(d, dict) and len(d) == 1:
+                    (d,) = d.values()
+                calls.append(d)
+                return d.with_eff(("PAD_FACE",)) if isinstance(d, Obj) else TOP
+
+            mm, am = coord_tracking_models()
+            mm = {**da_method_models(), **mm}
+            am = {**da_attr_models(), **am}
+            ev = Evaluator(P, models={"padding:_pad_basic": m_pad_basic, "padding:_pad_face_connections": m_pad_fc}, attr_models=am, method_models=mm)
+
+            def make():
+                g = make_grid(("AX", "AY"), face_connections=table_for(True, False, False), facedim=FACE, boundary="fill", fill_value=0.0) if face else make_grid(("AX", "AY"), boundary="fill", fill_value=0.0)
+                return dict(data=make_da("da", dims, coords=dict(coords)), grid=g, boundary_width={AX: (1, 1)}, boundary=None, fill_value=None, other_component=None)
+
+            try:
+                outs = ev.run_paths(padfi, make)
+            except Unmodelled as e:
+                ctx.unknown("R19.3", inst, str(e))
+                continue
+            bad = None
+            if not calls:
+                bad = "nothing is padded"
+            for d in calls:
+                left = sorted(map(repr, d.attrs.get("coords", {}))) if isinstance(d, Obj) else None
+                if left is None:
+                    bad = f"the padding receives {d!r}"
+                elif left:
+                    idx = [c for c in d.attrs["coords"] if c in d.attrs.get("dims", ())]
+                    bad = f"the data reaches the padding still carrying coordinates {left}" + (" (index coordinates survive the stripping)" if idx and len(idx) == len(left) else "")
+            if bad:
+                ctx.report("R19.3", padfi, inst, bad)
+            else:
+                ctx.ok("R19.3", inst, "no coordinate left on the array that is padded")
